@@ -39,6 +39,8 @@ GRAMMARS = {
     'nested': ('start: grp*\ngrp: A _body _C\n_body: | _body elem\n?elem: B | grp\nA: "a"\nB: "b"\n_C: "c"\n', {'propagate_positions': True, 'keep_all_tokens': True}),
 }
 TYPE = {'a': 'A', 'b': 'B', 'c': '_C'}
+# LALR merges the look-aheads of 'e: _C .' for both contexts: what the parser accepts there depends on the whole stack
+GRAMMARS['lalr-merge'] = ('start: A e A | B e B | e\ne: _C | _C e\nA: "a"\nB: "b"\n_C: "c"\n', {})
 
 
 def digest(ip):
